@@ -168,9 +168,9 @@ def run(ctx):
     # ------------------------------------------------------------ route S: the SDK
     ns = [0, 1, 15, 16, 17, 63, 64, 127, 128, 255, 256, 257, 300, 4095, 4096, 2 ** 31, 10 ** 20, -1]
     ds = [0, 1, 2, 3, 4, 5, 8, 255, 256, 300, -1]
-    if not thorough:
-        ns = [0, 15, 16, 255, 256, 300, 4096, 10 ** 20, -1] + rng.sample(ns, 3)
-        ds = [0, 1, 4, 5, 255, 256, -1] + rng.sample(ds, 2)
+    if thorough:
+        ns += [rng.randrange(0, 5000) for _ in range(25)]
+        ds += [rng.randrange(0, 400) for _ in range(10)]
     cfgs = [("vanilla", False, False), ("nv", True, False), ("nv", True, True)]
     axes = [("rot_X", "RotXInstruction"), ("rot_Y", "RotYInstruction"), ("rot_Z", "RotZInstruction")]
     sdk_cases = []
